@@ -410,3 +410,22 @@ def c16(c):
     c.add_traces(to, keyfn=verify_key, label="verify")
     c.assumptions += ["the reference is the PQClean build vendored in the cargo cache (pqcrypto-falcon 0.3.0); its RNG is its own",
                       "only the 'compressed' signature format of that version is exercised"]
+
+
+def c13(c):
+    thorough = c.tier == "thorough"
+    c.cov["rule"] = ("MC_Fft: index algebra of the table characterisation for all j and of the split/merge permutations. Trace_Fft: the 1024 complex "
+                     "constants (raw bits) against T[0]=1, T[2j]^2=T[j] (principal root), T[2j+1]=i T[2j] on exact dyadics up to 2^-50 -- these "
+                     "determine every entry; for every n in {2..1024} and operand families (dense, all-max, sparse extreme at the full 2^14 x 2^10 "
+                     "range, unit, zero) the five compositions product / round trip / merge / split / merge o split against exact integer "
+                     "ground truth with the property's 2^-30 ||a|| ||b|| bound (BigNat). distinct_nontrivial = distinct (composition, n, family)")
+    mc = McOutcome()
+    model_check(mc, [dict(module="MC_Fft", cfg="MC_Fft", workers=8)])
+    c.add_mc(mc)
+    drive("c13", ["--tier", c.tier, "--seed", c.seed, "--out", c.work, "--shards", 14])
+    to = validate_traces("Trace_Fft", traces_in(c.work, "fft"), parallel=PAR, timeout=3600)
+    c.add_traces(to, keyfn=generic_key)
+    c.assumptions += ["numeric accuracy is where the family is weakest: TLA+ contributes exact ground truth, the exact table characterisation and "
+                      "the tolerance formula; rounding behaviour is not re-derived and real (non-dyadic) inputs are represented by integer ones",
+                      "operand families are restricted so that exact products fit 31 bits (dense b is scaled down at large n; the full range is "
+                      "covered by sparse vectors)"]
